@@ -1,12 +1,14 @@
 (* Props_C01.v — the property theorems for C01 and nothing else.
    C01: "Point reads return the latest write, whatever the tree did in between". *)
 From Coq Require Import NArith List.
-From Blue Require Import Gen.Const_Lsm Lsm.Model Lsm.LoadProofs Lsm.Ordered Lsm.CompactProofs Lsm.History.
+From Blue Require Import Gen.Const_Lsm Lsm.Model Lsm.LoadProofs Lsm.Ordered Lsm.CompactProofs Lsm.GcProofs Lsm.History.
 Import ListNotations.
 Open Scope N_scope.
 
 (* For EVERY history of writes (put / del / batch), flushes, admissible compactions (trivial moves
-   and merges, however the outputs are cut into files) and reopens (however recovery re-levels the
+   and merges, however the outputs are cut into files), garbage collections at the last level
+   (whatever is dropped, as long as each key's newest input version survives or is a tombstone
+   dropped with every other version of the key) and reopens (however recovery re-levels the
    files, provided the result is well formed and ordered), from any starting sequence number, a
    point read of any key returns the value of the last write to it, or nothing. *)
 Theorem C01_reads_return_latest_write : forall n ops k,
@@ -33,6 +35,17 @@ Proof. exact compaction_preserves_kview. Qed.
 Theorem C01_compaction_preserves_reads : forall s c outs, Inv s -> acceptedb s (OCompact c outs) = true ->
   forall k t, load (compact s c outs) k t = load s k t.
 Proof. exact compaction_preserves_reads. Qed.
+
+(* A garbage collection at the last level changes no key's visible value (a dropped tombstone
+   reads as "nothing", like the tombstone did), keeps every view strictly descending, and
+   introduces no entry. *)
+Theorem C01_gc_preserves_reads : forall s c outs k, wf_version (ver s) -> Ordered s ->
+  valid_compactionb (ver s) c = true -> S (cupper c) = length (ver s) ->
+  gc_outputs_okb (ver s) c outs = true ->
+  hd_value (kview (compact s c outs) k) = hd_value (kview s k) /\
+  desc_ts (kview (compact s c outs) k) /\
+  (forall e, In e (kview (compact s c outs) k) -> In e (kview s k)).
+Proof. exact gc_preserves_reads. Qed.
 
 (* every reachable state satisfies the invariant (well-formed levels, Ordered, timestamps bounded
    by the sequence counter, memtable newer than files) *)
